@@ -7,7 +7,7 @@ VERIF = Path(__file__).resolve().parent.parent
 CLAIMED = {
     "C01": dict(
         text="Machine-checked translation correctness (C01_partial, ~2000 lines of Lean): for EVERY program of the decidable fragment InF (int/bool, + - * // % & | ^, unary minus, abs/min/max, "
-             "comparisons, and/or/not, conditional expressions, assignment, augmented assignment, if/elif/else, while, for-range, break, serial write, sleep, prologue + "
+             "comparisons, and/or/not, conditional expressions, assignment, augmented assignment, tuple (parallel) assignment with the transpiler's numbered temporaries, if/elif/else, while, for-range, break, serial write, sleep, prologue + "
              "main loop) and EVERY N, if the transpiler model accepts, the C semantics of the emitted program produces exactly CPython's trace, or hits C int overflow (UB), "
              "or evaluates a / or % with a negative operand (the strict reading stops there with signedDiv: that is exactly where the emitted C division differs from Python's floor division, "
              "known findings K01b/K01c, refuted by machine-checked witnesses on the raw reading; strict_run_is_raw_run relates the two); the operator tables _BIN/_UN/_CMP are regenerated "
@@ -24,13 +24,14 @@ CLAIMED = {
              "structure: context copies, promotion out of if/elif/else chains and loop bodies, C++ static typing and implicit conversion at stores). Proved for every "
              "program in which each name only ever receives one inferred type and expressions are tame, and for EVERY execution path (any branches, any number of "
              "iterations): the C++ store holds exactly Python's values (bool/int possibly widened, never narrowed); inferred type = compiler's type; a function result "
-             "is the join of its returns (upper bound, least, order-independent, rejection exactly for str/number mixes); the unrestricted statement is proved false by "
-             "witnesses. Ties: declared C++ types in the emission vs declareT; model Python store vs CPython; model C++ store vs compiled firmware; mergeReturn vs emitted "
+             "is the join of its returns (upper bound, least, order-independent, rejection exactly for str/number mixes); the builtin calls abs/min/max/int()/float()/bool() are inside the expression "
+             "model with the Arduino macro expansions on the C++ side, and the parser's _BUILTIN_CALL_RETURN_TYPES table is regenerated from the source on every run with named obligations (gen_builtin_*); the unrestricted statement is proved false by "
+             "witnesses (incl. K02e: max(1.5, 2.25) declared int). Ties: declared C++ types in the emission vs declareT; model Python store vs CPython; model C++ store vs compiled firmware; mergeReturn vs emitted "
              "return types. Oracle: firmware-printed values vs CPython on block-structured scripts incl. every order of 2-3 differently-typed assignments at top level / "
              "in a branch / in a loop, helper functions rebinding their parameters.",
-        note="Trusted: Lean kernel (propext, Classical.choice, Quot.sound); exact field arithmetic in theorems, float32/64 rounding only through the ties; function calls "
+        note="Trusted: Lean kernel (propext, Classical.choice, Quot.sound); exact field arithmetic in theorems, float32/64 rounding only through the ties; calls of user helper functions, lists and str() "
              "are outside the expression model (tie + oracle only) — partial; mock core + host g++. Known findings K02a (first assignment fixes the type, wider later "
-             "values narrowed), K02b (int / int), K02c (and/or value), K02d (-bool).",
+             "values narrowed), K02b (int / int), K02c (and/or value), K02d (-bool), K02e (abs/min/max typed int whatever the arguments).",
         technique="Lean 4 simulation proof (Python vs C++ typed evaluation under the parser's declarations, induction on expressions and paths) + declared-type, CPython and firmware correspondence + value oracle", ref="4/C02"),
     "C03": dict(
         text="Lean theorems: (a) the transpile-time evaluator is monotone in the constant environment — a value folded from partial knowledge is the value under EVERY "
@@ -59,11 +60,12 @@ CLAIMED = {
         text="Lean model of emit()'s two-pass assembly of setup()/loop() (pre-loop items, loop-body declarations hoisted in two passes, sorted button polls first): "
              "for every program whose devices are declared before the main loop or at the top of its body, every use is preceded by its configuration; the prologue's "
              "statements run once and in source order; each pass starts with exactly one poll per button and then the body in order; nothing is configured inside "
-             "loop(); plus (from C01) the split preserves the event sequence of `setup(); loop()×N` for every N and a `break` bound to the main loop is always refused. "
+             "loop(); a second, pin-level model (AssemblePins: which pin gets which mode where, names re-bound to other pins, per device kind) proves for every documented program and every N that each pin event is "
+             "preceded by a configuration of that pin, that no pin gets two modes, and that a device re-bound at the top of the loop body has its new pins configured in setup(); plus (from C01) the split preserves the event sequence of `setup(); loop()×N` for every N and a `break` bound to the main loop is always refused. "
              "Model tied to the compiled sketch (order of use/marker/poll events over N passes) on random device sets; temporal monitors on the real trace "
              "(configure-before-use per pin/peripheral, no re-configuration, poll placement, break guard under random nestings).",
         note="Trusted: Lean kernel (propext, Classical.choice, Quot.sound); the harness builds each script together with its item abstraction; mock core + host g++. "
-             "Proved counterexample: an LCD/serial/buzzer first declared inside the loop body is not configured (documented placement excludes it).",
+             "Proved counterexamples: an LCD/serial/buzzer first declared inside the loop body is not configured (documented placement excludes it); a Button / Ultrasonic name bound twice BEFORE the loop uses the later binding's pins unconfigured (known findings K05a, K05b, found by the pin-level model).",
         technique="Lean 4 theorems over a model of the emitter's assembly order + model/compiled-sketch correspondence + trace monitors", ref="4/C05"),
     "C06": dict(
         text="Lean theorems: the literal the parser writes for ANY string without a raw newline is read back by a C++ string-literal lexer as exactly that string, ending "
@@ -123,8 +125,8 @@ CLAIMED = {
              "claims are decided by an audit tie: parse()/emit() in audited subprocesses (sys.addaudithook, canary file, 5 s limit) on feature scripts, hostile "
              "expressions in every argument position, valid-Python torture inputs, the repo's own sources, byte noise and mutations; plus a no-state-between-calls test.",
         note="Trusted: Lean kernel (propext, Classical.choice, Quot.sound). PARTIAL: 'no file/process/network access', 'terminates promptly', 'only ValueError/SyntaxError' "
-             "and 'no state mutation' are interpreter-level facts the model cannot exhibit; they rest on the audit tie over the generated inputs. Floats, true division "
-             "and & | ^ are outside the evaluator model. Known findings K11a (pow/shift bomb), K11b (non-Python accepted), K11c (RecursionError); K11d (IndexError) was repaired (F22).",
+             "and 'no state mutation' are interpreter-level facts the model cannot exhibit; they rest on the audit tie over the generated inputs. The evaluator model has the whole operator table (& | ^ with a proved size bound; / and negative powers as an explicit 'float result' outcome with Python's overflow boundary), "
+             "float VALUES and float() are outside it; the whitelists _SAFE_CASTS / _SAFE_NAME_REFERENCES are regenerated from the source with named obligations. Known findings K11a (pow/shift bomb), K11b (non-Python accepted), K11c (RecursionError), K11e–g (SyntaxError for valid Python); K11d (IndexError) was repaired (F22).",
         technique="Lean 4 non-interference theorem on the evaluator model + differential tie + audited-subprocess oracle", ref="4/C11"),
     "C12": dict(
         text="Theorems over the effect model of target() for every scenario (pair valid?, upload?, PlatformIO present?, Servo note?, 10 fault points), proved by kernel "
